@@ -9,13 +9,15 @@ documented decisions (opentype/gtab/testcases sections 1-3); it returns `.error 
 where those do not determine the outcome (`Spec.Shape.Defined` is "returns `.ok`").
 `Shape.apply B ll gd lookups [] seq` (Model/ShapeEngine.lean) is the model of the Go engine
 (`gtab.Context.Apply` on a fresh context) as repaired for DESIGN §9 #11 #12 #13 #14 #15 #33 #32,
-C06-ch3 and C06-attach; it is tied to the Go code by the correspondence stream of C07, and the
+C06-ch3, C06-ch3skip and C06-attach; it is tied to the Go code by the correspondence stream of C07, and the
 Go code is compared with the reference directly by the stream `shapespec.apply` of this property.
 
 The first group of theorems states, clause by clause, what the REFERENCE does (they make the
-property's sentences precise); `C06_engine_eq_spec_*` states that the engine computes the same.
+property's sentences precise); `C06_engine_eq_spec` states that the engine computes the same on
+EVERY lookup list wherever the reference is defined (`C06_engine_eq_spec_simple`: no contextual
+subtables, `C06_engine_eq_spec_ctx_partial`: one level of nesting — the milestones on the way).
 -/
-import SfntV.Proofs.ShapeSpecNest
+import SfntV.Proofs.ShapeSpecDeep
 import SfntV.Proofs.ShapeSpecSem
 
 namespace SfntV.Props.C06
@@ -148,12 +150,29 @@ theorem C06_engine_eq_spec_ctx_partial (B : Nat) (ll : LookupList) (gd : Gdef) (
     Shape.apply B ll gd lookups [] seq = .ok ⟨r, []⟩ :=
   C06.engine_eq_spec_nested_simple B ll gd lookups seq r hnested h
 
-/-- The full statement (NOT proved for contextual lookups with arbitrary nested lookups; see cfg
-`partial`): the engine agrees with the reference on every lookup list wherever the reference
-is defined. -/
+/-- The full statement: the engine agrees with the reference on every lookup list wherever the
+reference is defined. -/
 def C06_engine_eq_spec_ctx_full : Prop :=
   ∀ (B : Nat) (ll : LookupList) (gd : Gdef) (lookups : List Nat) (seq r : List Glyph),
     Spec.Shape.shape B ll gd lookups seq = .ok r → Shape.apply B ll gd lookups [] seq = .ok ⟨r, []⟩
+
+/-- **The engine computes what the reference computes — every lookup list.**  For every bound
+`B`, every lookup list over GSUB 1.1 1.2 2.1 3.1 4.1 8.1, contextual and chained contextual
+formats 1, 2, 3, and GPOS 1.1 1.2 2.1 2.2 4.1 6.1, with contextual lookups nested to ANY depth
+(lookups invoking themselves included), all GDEF data, all lookup flags, every list of lookup
+indices and every glyph sequence: if the reference shaper is defined with result `r`, one call of
+the engine on a fresh context returns exactly `r` (glyph ids, attached text, offsets, advances),
+does not panic, stays within its fuel and leaves the stack of nested actions empty.  This is the
+refinement proof planned in DESIGN §8 (stack of positions ↔ tags on the glyphs), with the
+engine's flat loop over the stack compared against the reference's recursion. -/
+theorem C06_engine_eq_spec (B : Nat) (ll : LookupList) (gd : Gdef) (lookups : List Nat)
+    (seq r : List Glyph) (h : Spec.Shape.shape B ll gd lookups seq = .ok r) :
+    Shape.apply B ll gd lookups [] seq = .ok ⟨r, []⟩ :=
+  C06.engine_eq_spec_full B ll gd lookups seq r h
+
+/-- the full statement holds -/
+theorem C06_engine_eq_spec_ctx_full_holds : C06_engine_eq_spec_ctx_full :=
+  fun B ll gd lookups seq r h => C06_engine_eq_spec B ll gd lookups seq r h
 
 /-! ## non-vacuity: the reference is defined, and does something, on concrete inputs -/
 
@@ -206,6 +225,16 @@ example : Shape.apply 64
       (exSeq [1, 10, 1, 10])
     = .ok ⟨[⟨2, [97, 98], 0, 0, 0⟩, ⟨2, [99, 100], 0, 0, 0⟩], []⟩ :=
   C06_engine_eq_spec_ctx_partial 64 _ _ _ _ _ (by decide) (by rfl)
+
+/-- … and for two levels of nesting with a length change inside (testcases 3_06): `1 1 1 → 1@1 4@1`,
+lookup 1 `1 1 → 2@0 3@1`, lookup 2 `1 → 1 1`, lookup 3 `1 → 5`, lookup 4 `1 → 6` on `1 1 1` gives `1 6 5 1` -/
+example : Shape.apply 64
+    [⟨0, 0, [.ctx1 [(1, 0)] [[⟨[], [1, 1], [], [⟨1, 1⟩, ⟨1, 4⟩]⟩]]]⟩,
+     ⟨0, 0, [.ctx1 [(1, 0)] [[⟨[], [1], [], [⟨0, 2⟩, ⟨1, 3⟩]⟩]]]⟩,
+     ⟨0, 0, [.gsub21 [(1, 0)] [[1, 1]]]⟩, ⟨0, 0, [.gsub12 [(1, 0)] [5]]⟩, ⟨0, 0, [.gsub12 [(1, 0)] [6]]⟩] {} [0] []
+      (exSeq [1, 1, 1])
+    = .ok ⟨[⟨1, [97], 0, 0, 0⟩, ⟨6, [98], 0, 0, 0⟩, ⟨5, [], 0, 0, 0⟩, ⟨1, [99], 0, 0, 0⟩], []⟩ :=
+  C06_engine_eq_spec 64 _ _ _ _ _ (by rfl)
 
 /-- mark-to-base: base 1 (advance 500, anchor (300, 700)), mark 10 (anchor (20, 10)) -/
 example : Spec.Shape.shape 64 [⟨0, 0, [.gpos41 [(10, 0)] [(1, 0)] [⟨0, 20, 10⟩] [[⟨300, 700⟩]]]⟩] exGdef [0]
